@@ -20,7 +20,7 @@ that the theorems relate the model to — see the field lists in `handle`):
   {"op":"filterseq","names":[..],"a":SPEC,"b":SPEC,"values":[..]}      Sequence(Filter(a), Filter(b))
   {"op":"runif","names":[..],"spec":SPEC,"seq":"ident"|"dup"|"drop"|"tag","values":[..]}
   {"op":"groupby","names":[..],"group_by":S,"merge":S,"contexts":[ctx|null,..],"via":"fill"|"update","end":"reset"|"clear"}
-      S = "str" | ["str",..] | {"notiter":true}
+      S = "str" | ["str",..] | {"list":["str",..]} | {"notiter":true}
   {"op":"oldgroupby","group_by":G,"values":[..]}   G = NAME | [NAME,..] | {"bad":true}
   {"op":"contains","names":[..],"ctx":ctx,"s":"a.b"}
   {"op":"splitkey","s":"a.b"}   {"op":"startswith","a":[..],"b":[..]}   {"op":"split","s":"a.b"} -/
@@ -169,9 +169,14 @@ def sot? (j : Json) : Option StrOrTuple :=
   | .str s => some (.str s)
   | _ => (strList? j).map .tuple
 
+/-- a string, a tuple (JSON array) or a list (`{"list": [..]}`) of strings — a list behaves as a tuple —, or
+`{"notiter": true}` for something that is no container -/
 def gbArg? (j : Json) : Option GbArg :=
   match j with
-  | .obj _ => some .notIterable
+  | .obj _ =>
+    match (j.getObjVal? "list").toOption with
+    | some l => (strList? l).map (fun ks => .arg (.tuple ks))
+    | none => some .notIterable
   | _ => (sot? j).map .arg
 
 /-- positions of the values of each group (values are tagged with their index as data) -/
